@@ -354,14 +354,16 @@ func (c *copier) copy(ctx context.Context, src, srcComponents, target string, ov
 	if err != nil {
 		return errors.Wrapf(err, "failed to stat %s", src)
 	}
-	targetFi, err := os.Lstat(target)
-	if err != nil && !os.IsNotExist(err) && !errors.Is(err, syscall.ENOTDIR) {
-		return errors.Wrapf(err, "failed to stat %s", src)
+	targetFi, targetErr := os.Lstat(target)
+	if targetErr != nil && (os.IsNotExist(targetErr) || errors.Is(targetErr, syscall.ENOTDIR)) {
+		// (ENOTDIR: a non-directory of the destination stands where a source
+		// directory is walked. There is no target then; whether that matters
+		// is decided where something is written)
+		targetErr = nil
 	}
-	// (ENOTDIR: a non-directory of the destination stands where a source
-	// directory is walked. There is no target then; whether that matters is
-	// decided where something is written: an entry the patterns do not
-	// select writes nothing)
+	// any other error (ELOOP, ENAMETOOLONG, EACCES) concerns only an entry
+	// that is going to be written: it is returned once the patterns have
+	// selected this one
 
 	include := true
 	var (
@@ -384,6 +386,10 @@ func (c *copier) copy(ctx context.Context, src, srcComponents, target string, ov
 		if matchesExcludePattern {
 			include = false
 		}
+	}
+
+	if include && targetErr != nil {
+		return errors.Wrapf(targetErr, "failed to stat %s", target)
 	}
 
 	if include {
